@@ -41,20 +41,23 @@ type watch struct {
 }
 
 type machine struct {
-	w        *regs.W
-	hist     []string
-	ops      []string
-	pending  map[int]int // pending approvals per peer
-	watches  []watch     // removed connections: nothing may be written to them any more
-	ent2Gone map[int]bool
-	shared   bool // >= 2 peers held state on the same local feature at the moment of a removal
-	removals int
-	mu       sync.Mutex
-	withheld []*api.Message
-	slept    bool
-	late     int
+	w          *regs.W
+	hist       []string
+	ops        []string
+	pending    map[int]int // pending approvals per peer
+	watches    []watch     // removed connections: nothing may be written to them any more
+	ent2Gone   map[int]bool
+	shared     bool // >= 2 peers held state on the same local feature at the moment of a removal
+	removals   int
+	mu         sync.Mutex
+	withheld   []*api.Message
+	slept      bool
+	late       int
+	reconnects int
 	// a late message while other peers are connected (the core event handler is subscribed)
 	lateWithOthers bool
+	// a late message on the old connection of a device that has connected again meanwhile
+	lateAfterReconnect bool
 }
 
 func (m *machine) logf(format string, a ...any) { m.hist = append(m.hist, fmt.Sprintf(format, a...)) }
@@ -446,7 +449,11 @@ func (m *machine) lateResponse(t *rapid.T) {
 		m.lateWithOthers = true
 	}
 	m.checkWatches(t, "a late "+kind+" of the removed peer")
-	if m.w.Local.RemoteDeviceForSki(p.Ski) != nil {
+	reconnected := m.w.Peers[p.Idx] != p
+	if reconnected {
+		m.lateAfterReconnect = true
+	}
+	if !reconnected && m.w.Local.RemoteDeviceForSki(p.Ski) != nil {
 		world.Fail(t, "C10/removed-device-state-left/still-resolvable", "after a late %s the removed peer%d can be resolved by SKI again%s", kind, p.Idx+1, m.history())
 	}
 	for pi, q := range m.w.Peers {
@@ -457,6 +464,34 @@ func (m *machine) lateResponse(t *rapid.T) {
 			world.Fail(t, "C10/other-peer-lost-state/late-message/registry", "a late %s of removed peer%d changed the state of peer%d\n before: %+v\n after:  %+v%s", kind, p.Idx+1, pi+1, before[pi], after, m.history())
 		}
 	}
+}
+
+// reconnect: the device of a removed connection connects again (same SKI and address, a new
+// connection) and announces itself. The old connection stays removed and watched.
+func (m *machine) reconnect(t *rapid.T) {
+	var gone []int
+	for i, p := range m.w.Peers {
+		if p.Gone && p.Ents != nil {
+			gone = append(gone, i)
+		}
+	}
+	if len(gone) == 0 {
+		t.Skip("no removed connection")
+	}
+	pi := gone[rapid.IntRange(0, len(gone)-1).Draw(t, "peer")]
+	old := m.w.Peers[pi]
+	p := m.w.Reconnect(old, regs.PeerEntities())
+	if rapid.Bool().Draw(t, "answersCoreRequests") {
+		p.AnswerCoreRequests()
+		p.Cap.Drain()
+	}
+	m.ent2Gone[pi] = false
+	m.pending[pi] = 0
+	m.w.Events.Drain()
+	m.reconnects++
+	m.logf("peer%d connects again on a new connection and announces itself", pi+1)
+	m.ops = append(m.ops, "reconnect")
+	m.checkWatches(t, "the reconnect of the device")
 }
 
 func (m *machine) entityRemoved(t *rapid.T) {
@@ -593,6 +628,7 @@ func TestTeardown(t *testing.T) {
 			"entityRemoved":     m.entityRemoved,
 			"entityReannounced": m.entityReannounced,
 			"lateResponse":      m.lateResponse,
+			"reconnect":         m.reconnect,
 		})
 		// let every approval timer expire, then change data once more: the removed connections
 		// must have stayed silent
@@ -623,6 +659,12 @@ func TestTeardown(t *testing.T) {
 		labels := []string{fmt.Sprintf("removals/%d", m.removals)}
 		if m.late > 0 {
 			labels = append(labels, "late-message-of-removed-peer")
+		}
+		if m.reconnects > 0 {
+			labels = append(labels, "reconnect")
+		}
+		if m.lateAfterReconnect {
+			labels = append(labels, "late-message-after-reconnect")
 		}
 		if m.lateWithOthers {
 			labels = append(labels, "late-message-while-others-connected")
